@@ -19,7 +19,7 @@ StepFails(S, c, a, o) ==
      \cup (IF c[1] = "compile" /\ a.res[1] = "function" /\ o.kind = "function" /\ o.free # 0 THEN {"c19.free_symbols"} ELSE {})
      \cup (IF c[1] \in {"net_step", "init", "init_all", "add_later"} /\ o.kind = "error" THEN {"crash"} ELSE {})
      \cup (IF c[1] = "step" /\ a.res[1] = "ok" /\ o.kind = "error" THEN {"crash"} ELSE {})
-     \cup (IF o.kind # "error" /\ \E e \in InNet(T) : o.vars[e] # T.vars[e] THEN {"c13.kinds"} ELSE {})
+     \cup (IF o.kind # "error" /\ \E e \in InNet(T) \cap Declaring : o.vars[e] # T.vars[e] THEN {"c13.kinds"} ELSE {})
 
 RECURSIVE Walk(_, _, _, _)
 Walk(tr, i, S, acc) ==
